@@ -89,30 +89,56 @@ emit(("startup", sorted(sys.modules)))
 pathres = []
 for name in job["path"]:
     pathres.append(step(name, False)[:2])
-emit(("path", pathres, iomods()))
+base = iomods()
+emit(("path", pathres, base))
+baseset = set(base)
+
+def cand_record(name):
+    res = step(name, job["verbose"])
+    now = set(iomods())
+    return ("cand", name, res, sorted(now - baseset), sorted(baseset - now))
+
 if job["mode"] == "direct":
     for name in job["cands"]:
-        emit(("cand", name, step(name, job["verbose"]), iomods()))
+        emit(cand_record(name))
+        baseset = set(iomods())
 else:
+    todo = []
     for name in job["cands"]:
         if name in sys.modules:
             # already fully imported in this state: the import statement is a sys.modules lookup that
             # runs no module code and cannot change the state, so no fork is needed to protect it
-            before = iomods()
-            rec = ("cand", name, step(name, job["verbose"]), iomods())
-            if rec[3] != before:
-                rec = ("cand", name, ("fail", "StateChanged", "import of a loaded module changed sys.modules", "", None), rec[3])
+            rec = cand_record(name)
+            if rec[3] or rec[4]:
+                rec = ("cand", name, ("fail", "StateChanged", "import of a loaded module changed sys.modules", "", None), rec[3], rec[4])
             emit(rec)
-            continue
-        pid = os.fork()
-        if pid == 0:
-            try:
-                emit(("cand", name, step(name, job["verbose"]), iomods()))
-            finally:
-                os._exit(0)
-        _, st = os.waitpid(pid, 0)
-        if st != 0:
-            emit(("cand", name, ("fail", "ChildCrash", "status %d" % st, "", None), iomods()))
+        else:
+            todo.append(name)
+    # every other candidate is imported in its own fork of this state; forks of one state run
+    # concurrently (they cannot influence each other) and report with one atomic write each
+    par = job.get("par", 8)
+    while todo:
+        batch, todo = todo[:par], todo[par:]
+        pids = []
+        for name in batch:
+            out.flush()
+            pid = os.fork()
+            if pid == 0:
+                code = 1
+                try:
+                    line = (repr(cand_record(name)) + "\n").encode("utf-8", "backslashreplace")
+                    if len(line) > 4000:      # keep the write atomic (PIPE_BUF)
+                        rec = cand_record(name)
+                        line = (repr(rec[:3] + (rec[3][:20] + ["..."], rec[4][:20])) + "\n").encode("utf-8", "backslashreplace")[:4000]
+                    os.write(1, line)
+                    code = 0
+                finally:
+                    os._exit(code)
+            pids.append((pid, name))
+        for pid, name in pids:
+            _, st = os.waitpid(pid, 0)
+            if st != 0:
+                emit(("cand", name, ("fail", "ChildCrash", "status %d" % st, "", None), [], []))
 '''
 
 
@@ -144,7 +170,7 @@ def run_job(job):
     try:
         flags = ["-I", "-S"] if job.get("bare") else ["-I"]
         r = subprocess.run([PY] + flags + ["-W", "ignore", "-c", DRIVER, arg], capture_output=True, text=True,
-                           timeout=300, env=env, cwd="/")
+                           timeout=1500, env=env, cwd="/")
     except subprocess.TimeoutExpired:
         raise core.BrokenCheck("import driver timed out for path %r" % (job["path"],))
     recs = []
@@ -155,10 +181,24 @@ def run_job(job):
             except Exception:
                 pass     # something an imported module printed
     cands = [x for x in recs if x[0] == "cand"]
-    if not recs or recs[0][0] != "startup" or len(cands) != len(job["cands"]):
+    order = {n: i for i, n in enumerate(job["cands"])}
+    if (not recs or recs[0][0] != "startup" or len(recs) < 2 or recs[1][0] != "path"
+            or sorted(x[1] for x in cands) != sorted(job["cands"])):
         raise core.BrokenCheck("import driver malfunction rc=%s path=%r cands=%r\nstdout=%s\nstderr=%s"
                                % (r.returncode, job["path"], job["cands"], r.stdout[-600:], r.stderr[-1200:]))
-    return recs
+    base = set(recs[1][2])
+    out = recs[:2]
+    if job["mode"] == "direct":
+        cur = set(base)
+        for x in cands:
+            cur = (cur | set(x[3])) - set(x[4])
+            out.append(("cand", x[1], x[2], sorted(cur)))
+    else:
+        for x in sorted(cands, key=lambda x: order[x[1]]):
+            if "..." in x[3]:
+                raise core.BrokenCheck("fork record too long for an atomic write: %r" % (x[:2],))
+            out.append(("cand", x[1], x[2], sorted((base | set(x[3])) - set(x[4]))))
+    return out
 
 
 def norm_msg(msg):
